@@ -349,7 +349,23 @@ func (vc *VC) convert(st *State, x *Term, from, to types.Type, pos token.Pos) *T
 		vc.note("float conversion abstracted (result unconstrained)")
 		return vc.freshConst("fconv", to)
 	case isStringType(to) && isIntType(from):
-		unsup("string(rune) conversion")
+		// string(rune): UTF-8 encoding, 1..4 bytes; only the single byte case is characterised
+		if vc.absStr {
+			return vc.freshConst("runestr", to)
+		}
+		vc.note("string(rune) abstracted (exact only for runes below 128)")
+		r := vc.freshConst("runestr", to)
+		one := vc.intLit(1, 64)
+		vc.assume(and(vc.le(one, "(str-len "+r.S+")", true), vc.le("(str-len "+r.S+")", vc.intLit(4, 64), true)))
+		bits, _ := intInfo(from)
+		small := and(vc.le(vc.intLit(0, bits), x.S, true), vc.lt(x.S, vc.intLit(128, bits), true))
+		b0 := "(select (str-arr " + r.S + ") " + vc.at("(str-off "+r.S+")", vc.intLit(0, 64)) + ")"
+		xb := x.S
+		if vc.mode == "bv" && bits != 8 {
+			xb = fmt.Sprintf("((_ extract 7 0) %s)", x.S)
+		}
+		vc.assume(implies(small, and("(= (str-len "+r.S+") "+one+")", "(= "+b0+" "+xb+")")))
+		return r
 	case isStringType(to) && isStringType(from):
 		return &Term{x.S, x.Sort, to}
 	}
